@@ -79,6 +79,8 @@ def Ty.startsWith (den : Den) (code : Nat) : Ty → Bool
   | .byteArr _ (some c) _ _ => c.den == den && c.n == code
   | .ptr (.struct (some c) _) => c.den == den && c.n == code
   | .ptr (.byteArr _ (some c) _ _) => c.den == den && c.n == code
+  | .custom (some c) _ => c.den == den && c.n == code
+  | .ptr (.custom (some c) _) => c.den == den && c.n == code
   | _ => false
 
 def Alts.codes : Alts → List Nat
